@@ -89,7 +89,8 @@ def doCfg (t : List String) : Option Cfg × String :=
         if !isArc && (minT < -(N.tdiv 2) + 1 ∨ maxT > -(N.tdiv 2) + N) then (none, "err")
         else
           let tofR : Option (Option TofTable) :=
-            if geom == "cyl" && I maxtof > 0 && I tofm > 0 then (setTofMash (I maxtof) (parseHex tofsize) (I tofm)).map some
+            -- (blocks / generic data: `set_tof_mash_factor` called by the harness after construction)
+            if I maxtof > 0 && I tofm > 0 then (setTofMash (I maxtof) (parseHex tofsize) (I tofm)).map some
             else some none
           match tofR with
           | none => (none, "err")
@@ -222,6 +223,77 @@ def doDet (c : Cfg) (b : Bin) : String :=
       s!"{n} " ++ " ".intercalate [fm ⟨sAvg, 16 * cf.reff⟩, fm ⟨dphi, 64⟩, fmq m (16 * (absQ m + c.spacingQ * c.R)),
         fm ⟨tt, 16 * (tt.abs + 1e-3) * (1 + cf.cond b.tang)⟩]
 
+/-- which of the repairs C12-6 (`get_sino_coords` direction) and C12-7 (`get_bin` view wrap) the code under test contains (probed
+    by the harness through the real API, line `lorfix`) -/
+structure Fixes where
+  dir : Bool := true
+  wrap : Bool := true
+
+/-- azimuthal angle offset in units of π (ProjDataInfoCylindrical.cxx:66-92): the tilt (a float, in radians) is taken as `tilt/π` rounded to
+    binary64; used only to decide on which side of the offset an angle lies -/
+def Cfg.tiltPi (c : Cfg) : Rat := floatToRat (c.cf.tilt / piF)
+def Cfg.phiOffsetPi (c : Cfg) : Rat :=
+  (if c.N > 2 ∧ c.V * 2 ≠ c.N ∧ c.N.tmod (c.V * 2) == 0 then ((c.mash - 1 : Int) : Rat) / (c.N : Rat) else 0) + c.tiltPi
+
+def fmtRts (l : List RtResult) : String := " | ".intercalate (dedup (l.map fmtRt))
+
+/-- `rtx kind s v a tp t`: get_bin of the LOR of the bin handed over as another LOR type / moved along the line / reversed -/
+def doRtx (fx : Fixes) (c : Cfg) (kind : String) (b : Bin) : String :=
+  match LorKind.ofString? kind with
+  | none => "bad-kind"
+  | some k =>
+    if !c.arc then
+      -- the tilt cancels in exact arithmetic: run with the scanner's tilt and with tilt 0
+      fmtRts (c.cyl.roundTripVia c.tiltPi k b ++ c.cyl.roundTripVia 0 k b)
+    else
+      let g : ArcGeom := { V := c.V, binSize := c.binSizeQ, spacing := c.spacingQ, offset := c.phiOffsetPi,
+                           minTang := c.minTang, maxTang := c.maxTang, minSeg := c.minSeg, segs := c.segs, tof := c.tof }
+      match g.lorOf b with
+      | none => "none"
+      | some l =>
+        let dt := g.deltaTime b.tof
+        let fmtO := fun (o : Option Bin) => match o with | some nb => fmtBin nb | none => "miss"
+        if !k.viaCylinder then
+          -- sinogram coordinates are copied (`s = R sin(asin(s/R))`)
+          let l' : LorS := if k.reversed then { l with swapped := !l.swapped } else l
+          fmtO (g.getBinCore fx.wrap l' dt)
+        else
+          -- through cylinder coordinates: β = asin(s/R)/π (binary64 value, taken exactly), ψ = φ ± β, and back (`get_sino_coords`)
+          let absS := absQ l.s
+          let bq := floatToRat (Float.asin (F absS / c.cf.reff) / piF)
+          let na : LorNA := ⟨l.z1, l.z2, l.phi, if l.s ≥ 0 then bq else -bq, l.swapped⟩
+          let cy := na.cylOfKind k
+          let eps : Rat := 1 / (1000000 * (c.V : Rat))
+          let run := fun (cy : LorCyl) =>
+            let n' := cy.toNA fx.dir
+            let s' := if absQ (n'.beta - bq) ≤ 4 * eps then absS else if absQ (n'.beta + bq) ≤ 4 * eps then -absS else 1000000000
+            fmtO (g.getBinCore fx.wrap ⟨n'.z1, n'.z2, n'.phi, s', n'.swapped⟩ dt)
+          -- before the fixes C12-6 / C12-7 the answer depends on the rounding error of the angles recomputed from the end points
+          -- (which branch of `get_sino_coords` is taken for a LOR through the axis; an angle just below the azimuthal offset)
+          let cands := if fx.wrap && fx.dir then [run cy] else
+            [run cy, run { cy with psi1 := cy.psi1 - 2 * eps }, run { cy with psi1 := cy.psi1 + 2 * eps }]
+          " | ".intercalate (dedup cands)
+
+/-- `fbin d1 r1 d2 r2 …`: find_bin_given_cartesian_coordinates_of_detection of the coordinates of a detector pair -/
+def doFbin (c : Cfg) (d1 r1 d2 r2 : Int) : String := fmtRt (c.cyl.findBin d1 r1 d2 r2)
+
+def fmAng (q : Rat) : String := fm ⟨F q * piF, 4 * piF⟩
+def fmZ (q : Rat) : String := fmq q (absQ q + 1)
+def fmtNA (l : LorNA) : String :=
+  " ".intercalate [fmZ l.z1, fmZ l.z2, fmAng l.phi, fmAng l.beta, if l.swapped then "1" else "0"]
+
+/-- `lc2n k1 k2 z1 z2`: sinogram coordinates of the cylinder LOR with ψ1 = k1·π/64, ψ2 = k2·π/64 -/
+def doLc2n (fx : Fixes) (k1 k2 z1 z2 : Int) : String :=
+  fmtNA ((⟨z1, (k1 : Rat) / 64, z2, (k2 : Rat) / 64⟩ : LorCyl).toNA fx.dir)
+
+/-- `lnmk kφ j z1 z2 sw`: constructor from explicit arguments φ = kφ·π/64, β = j·π/128 -/
+def doLnmk (kphi j z1 z2 sw : Int) : String := fmtNA (LorNA.mk' z1 z2 ((kphi : Rat) / 64) ((j : Rat) / 128) (sw == 1))
+
+/-- `ln2c …`: … and its cylinder coordinates -/
+def doLn2c (kphi j z1 z2 sw : Int) : String :=
+  let c := (LorNA.mk' z1 z2 ((kphi : Rat) / 64) ((j : Rat) / 128) (sw == 1)).toCyl
+  " ".intercalate [fmZ c.z1, fmAng c.psi1, fmZ c.z2, fmAng c.psi2]
+
 def doTofb (c : Cfg) (t : Int) : String :=
   match c.tof with
   | none => "none"
@@ -295,36 +367,47 @@ def doArc (t : List String) : String :=
     | _ => "bad"
   | _ => "bad"
 
-def stepLine (c : Option Cfg) (line : String) : Option Cfg × String :=
+structure St where
+  fx : Fixes := {}
+  cfg : Option Cfg := none
+
+def stepLine (st : St) (line : String) : St × String :=
   let toks := (line.trimAscii.toString.splitOn " ").filter (· ≠ "")
   let I (s : String) : Int := s.toInt?.getD 0
+  let c := st.cfg
   match toks with
-  | "cfg" :: rest => doCfg rest
-  | "ovl" :: rest => (c, doOvl rest)
-  | "arc" :: rest => (c, doArc rest)
-  | "blor" :: rest => (c, doBlor (rest.map parseHex))
+  | ["lorfix", a, b] => ({ st with fx := { dir := a == "1", wrap := b == "1" } }, "ok")
+  | "cfg" :: rest => let (c', out) := doCfg rest; ({ st with cfg := c' }, out)
+  | "ovl" :: rest => (st, doOvl rest)
+  | "arc" :: rest => (st, doArc rest)
+  | "blor" :: rest => (st, doBlor (rest.map parseHex))
+  | ["lc2n", k1, k2, z1, z2] => (st, doLc2n st.fx (I k1) (I k2) (I z1) (I z2))
+  | ["lnmk", k, j, z1, z2, sw] => (st, doLnmk (I k) (I j) (I z1) (I z2) (I sw))
+  | ["ln2c", k, j, z1, z2, sw] => (st, doLn2c (I k) (I j) (I z1) (I z2) (I sw))
   | _ =>
     match c with
-    | none => (c, "err")
+    | none => (st, "err")
     | some cc =>
       match toks with
-      | ["coord", s, v, a, tp, t] => (c, doCoord cc ⟨I s, I v, I a, I tp, I t⟩)
-      | ["lor", s, v, a, tp, t] => (c, doLor cc ⟨I s, I v, I a, I tp, I t⟩)
-      | ["rt", s, v, a, tp, t] => (c, doRt cc ⟨I s, I v, I a, I tp, I t⟩)
-      | ["det", s, v, a, tp] => (c, doDet cc ⟨I s, I v, I a, I tp, 0⟩)
-      | ["tofb", t] => (c, doTofb cc (I t))
-      | ["toft", d] => (c, match cc.tof with
+      | ["coord", s, v, a, tp, t] => (st, doCoord cc ⟨I s, I v, I a, I tp, I t⟩)
+      | ["lor", s, v, a, tp, t] => (st, doLor cc ⟨I s, I v, I a, I tp, I t⟩)
+      | ["rt", s, v, a, tp, t] => (st, doRt cc ⟨I s, I v, I a, I tp, I t⟩)
+      | ["rtx", k, s, v, a, tp, t, _, _] => (st, doRtx st.fx cc k ⟨I s, I v, I a, I tp, I t⟩)
+      | ["fbin", d1, r1, d2, r2, _, _] => (st, doFbin cc (I d1) (I r1) (I d2) (I r2))
+      | ["det", s, v, a, tp] => (st, doDet cc ⟨I s, I v, I a, I tp, 0⟩)
+      | ["tofb", t] => (st, doTofb cc (I t))
+      | ["toft", d] => (st, match cc.tof with
           | some T => toString (T.getTofBin (parseHex d))
           | none => "0")
-      | ["dpos", tang, ax] => (c, doDpos cc (I tang) (I ax))
-      | _ => (c, "bad-op")
+      | ["dpos", tang, ax] => (st, doDpos cc (I tang) (I ax))
+      | _ => (st, "bad-op")
 
-partial def loop (h : IO.FS.Stream) (c : Option Cfg) : IO Unit := do
+partial def loop (h : IO.FS.Stream) (st : St) : IO Unit := do
   let line ← h.getLine
   if line.isEmpty then return ()
-  let (c', out) := stepLine c line
+  let (st', out) := stepLine st line
   IO.println out
-  loop h c'
+  loop h st'
 
-def main : IO Unit := do loop (← IO.getStdin) none
+def main : IO Unit := do loop (← IO.getStdin) {}
 end Driver.C12
